@@ -277,7 +277,10 @@ def gen_simple(rng, model, in_facet):
                                      {'a.x': -1, 'k': 1}] if not model
                                     else [{'_id': -1}, {'_id': 1}])}
     if r < 0.83:
-        return {rng.choice(['$skip', '$limit']): rng.choice([0, 1, 2])}
+        # `$limit` needs a positive, `$skip` a non-negative integer (OperationFailure otherwise)
+        if rng.random() < 0.5:
+            return {'$skip': rng.choice([0, 1, 2, 2, -1])}
+        return {'$limit': rng.choice([1, 1, 2, 2, 3, 0])}
     if r < 0.88:
         return {'$sample': {'size': rng.choice([0, 1, 2, 5])}}
     if r < 0.91:
@@ -305,8 +308,13 @@ def gen_pipeline(rng, model=False):
     n = rng.choice([1, 1, 2, 2, 3, 4])
     p = []
     for _ in range(n):
-        if rng.random() < 0.28:
+        r = rng.random()
+        if r < 0.28:
             p.append(gen_facet(rng, model))
+        elif r < 0.30:
+            # a stage document must hold exactly one operator: rejected when it is reached
+            p.append(rng.choice([{}, {'$match': {}, '$limit': 1},
+                                 {'$addFields': {'a.w': 1}, '$unwind': '$arr'}]))
         else:
             p.append(gen_simple(rng, model, False))
     if rng.random() < 0.15:
